@@ -963,9 +963,8 @@ class Interp:
                 return Closure(m.group(1), [Cell(self.operand(x, frame)) for x in r[2]])
             m = COROUTINE_AT_RE.match(head)
             if m:
-                c = Closure('async:' + frame['__body__'].name, [Cell(self.operand(x, frame)) for x in r[2]])
-                c.state = 0
-                return c
+                # an `async fn` body / coroutine: a state machine value; its poll function is `<creator>::{closure#0}`
+                return Agg('coroutine:' + frame['__body__'].name, [Cell(self.operand(x, frame)) for x in r[2]], 0)
             raise Unsupported('closure rvalue %r' % head)
         if k == 'adt':
             return self.adt(r, frame)
